@@ -229,7 +229,7 @@ func (w *World) genTxs(parent *TNode, maxTx int, pBad int) (txs []*transaction.T
 					break
 				}
 				amt := myFund
-				if w.rng.Intn(2) == 0 && myFund > fee {
+				if !w.forceFullUnstake && w.rng.Intn(2) == 0 && myFund > fee {
 					amt = fee + w.rng.UpTo(myFund-fee)
 				}
 				if corrupt == "unstake-too-much" {
